@@ -47,7 +47,7 @@ QUERIES = ['capacitors', 'inductors', 'voltage_sources', 'current_sources', 'com
            'in_series', 'in_parallel', 'across_nodes', 'unreachable_nodes', 'ladder', 'loop_analysis', 'cg',
            'equipotential_nodes', 'describe', 'thevenin', 'norton', 'impedance', 'admittance', 'twoports',
            'dependent_sources', 'transformers', 'mutual_couplings', 'control_sources', 'ics', 'is_passive',
-           'is_switching', 'has_transient', 'sources', 'elements', 'nodes', 'Voc', 'Isc', 'voltage_gain']
+           'is_switching', 'has_transient', 'sources', 'elements', 'Voc', 'Isc', 'voltage_gain']
 
 
 # the fixed battery of read-only observations the harness makes on the same instance after every query op (none of
@@ -381,13 +381,17 @@ class Scan:
         def is_inv(st):
             return isinstance(st, ast.Expr) and isinstance(st.value, ast.Call) and isinstance(st.value.func, ast.Attribute) \
                 and st.value.func.attr == '_invalidate' and isinstance(st.value.func.value, ast.Name) and st.value.func.value.id == 'self'
+        # statement lists that are executed when `_add` does not raise: the function body, and the body and the `finally`
+        # block of a top-level `try` (`try: cpt = self._add(...) finally: self._invalidate()`)
+        blocks = [f.body]
         for st in f.body:
-            if is_inv(st):
-                return (True, True)
-            # `try: ... self._add(...) ... finally: self._invalidate()`: reached on every path
-            if isinstance(st, ast.Try) and any(is_inv(x) for x in st.finalbody):
-                return (True, True)
-        for st in f.body:
+            if isinstance(st, ast.Try):
+                blocks += [st.body, st.finalbody, st.orelse]
+        for b in blocks:
+            for st in b:
+                if is_inv(st):
+                    return (True, True)
+        for st in [x for b in blocks for x in b]:
             if isinstance(st, ast.If) and any(is_inv(x) for x in st.body):
                 t = ast.unparse(st.test).replace(' ', '')
                 if any(t in (v + 'isnotNone', v, v + '!=None') for v in addvars):
@@ -458,6 +462,17 @@ class Scan:
                             and n.value.func.attr == 'pop' and not n.value.args and isinstance(n.value.func.value, ast.Name) \
                             and 'set' in n.value.func.value.id:
                         sites.append('%s:%s.pop()' % (f.name, n.value.func.value.id))
+        # a variable that `.discard()` is called on is a set: `list(<it>)` / `tuple(<it>)` hands its hash order to the caller
+        for name, (fn, cname, f) in self.members.items():
+            setvars = {n.func.value.id for n in ast.walk(f)
+                       if isinstance(n, ast.Call) and isinstance(n.func, ast.Attribute) and n.func.attr == 'discard'
+                       and isinstance(n.func.value, ast.Name)}
+            for n in ast.walk(f):
+                if isinstance(n, ast.Call) and isinstance(n.func, ast.Name) and n.func.id in ('list', 'tuple') and len(n.args) == 1 \
+                        and isinstance(n.args[0], ast.Name) and n.args[0].id in setvars:
+                    site = '%s:%s(%s)' % (f.name, n.func.id, n.args[0].id)
+                    if site not in sites:
+                        sites.append(site)
         return sites
 
 
@@ -641,7 +656,15 @@ class Scan:
 
     def reserved_names(self):
         """names that `hasattr(self, name)` finds on a netlist: members of the scanned classes"""
-        return sorted(self.members.keys())
+        # plain methods only: `hasattr` EVALUATES a property (for `Vdict` the whole analysis), and says False when that
+        # evaluation raises AttributeError -- whether such a name is refused depends on the state of the circuit
+        out = []
+        for name, (fn, cname, f) in self.members.items():
+            decos = [ast.unparse(d) for d in f.decorator_list]
+            if any('property' in d for d in decos):
+                continue
+            out.append(name)
+        return sorted(out)
 
     # ---- round 3: cached objects handed out by reference, and who mutates them
     MUTATING = ('append', 'extend', 'insert', 'pop', 'remove', 'clear', 'update', 'add', 'discard', 'setdefault',
@@ -907,6 +930,51 @@ class Scan:
                     damages.append((q, slot))
         return handouts, mutations, damages
 
+    # ---- round 3: hidden process-wide state and aliasing in the whole package
+    def hidden_state_scan(self):
+        """(mutableDefaults, argAliasMutations) over every module of the package
+        mutableDefaults    `def f(..., p={})` / `[]` / `set()` / `dict()` / `list()`: ONE object shared by all calls of the
+                           process -- a call that fills it leaks the circuit it worked on into later calls
+        argAliasMutations  `x = <param>.<attr>` (no copy) followed by `x.<mutating method>(...)` or `x[...] = ...`: an object owned
+                           by an ARGUMENT is changed by a function that is supposed to derive something new from it"""
+        d = os.path.join(self.repo, 'lcapy')
+        md, am = [], []
+        for fn in sorted(os.listdir(d)):
+            if not fn.endswith('.py'):
+                continue
+            try:
+                with warnings.catch_warnings():
+                    warnings.simplefilter('ignore')
+                    tree = ast.parse(open(os.path.join(d, fn)).read())
+            except Exception:
+                self.unparsed.append('syntax:' + fn)
+                continue
+            for f in [n for n in ast.walk(tree) if isinstance(n, ast.FunctionDef)]:
+                a = f.args
+                allargs = a.posonlyargs + a.args
+                defaults = list(zip(allargs[len(allargs) - len(a.defaults):], a.defaults)) + \
+                    [(x, y) for x, y in zip(a.kwonlyargs, a.kw_defaults) if y is not None]
+                for arg, dv in defaults:
+                    if isinstance(dv, (ast.Dict, ast.List, ast.Set)) or (
+                            isinstance(dv, ast.Call) and isinstance(dv.func, ast.Name) and dv.func.id in ('dict', 'list', 'set') and not dv.args):
+                        md.append('%s:%s(%s=%s)' % (fn, f.name, arg.arg, ast.unparse(dv)))
+                params = {x.arg for x in allargs + a.kwonlyargs if x.arg not in ('self', 'cls')}
+                alias = {}
+                for n in ast.walk(f):
+                    if isinstance(n, ast.Assign) and len(n.targets) == 1 and isinstance(n.targets[0], ast.Name):
+                        v = n.value
+                        if isinstance(v, ast.Attribute) and isinstance(v.value, ast.Name) and v.value.id in params:
+                            alias[n.targets[0].id] = ast.unparse(v)
+                for n in ast.walk(f):
+                    if isinstance(n, ast.Call) and isinstance(n.func, ast.Attribute) and n.func.attr in self.MUTATING + ('set',) \
+                            and isinstance(n.func.value, ast.Name) and n.func.value.id in alias:
+                        am.append('%s:%s: %s = %s; %s' % (fn, f.name, n.func.value.id, alias[n.func.value.id], ast.unparse(n)[:40]))
+                    if isinstance(n, (ast.Assign, ast.AugAssign)):
+                        for t in (n.targets if isinstance(n, ast.Assign) else [n.target]):
+                            if isinstance(t, ast.Subscript) and isinstance(t.value, ast.Name) and t.value.id in alias:
+                                am.append('%s:%s: %s = %s; %s' % (fn, f.name, t.value.id, alias[t.value.id], ast.unparse(n)[:40]))
+        return md, am
+
     # ---- round 3: symbol registry
     def symbol_registry(self):
         """(deleteCleansKinds, contextsShareSymbols)
@@ -1116,6 +1184,7 @@ def generate(repo):
     handouts, mutations, damages = sc.shared_cached_objects()
     settings = sc.settings()
     del_cleans, ctx_share = sc.symbol_registry()
+    mut_defaults, arg_alias = sc.hidden_state_scan()
     info = {'memoised': [m[0] for m in memo], 'cleared': cleared,
             'not_cleared': [m[0] for m in memo if m[0] not in cleared],
             'mutators': muts, 'initInvalidates': init_inv, 'overrideDetaches': detach, 'keepConnectedNode': keepn,
@@ -1126,7 +1195,8 @@ def generate(repo):
             'ctorDetachesOnError': ctor_safe, 'registerDetachesOnError': reg_safe,
             'sharedHandouts': handouts, 'sharedMutations': mutations, 'damages': damages,
             'settings': [(a, b) for (a, b, c) in settings if c], 'reserved': len(reserved),
-            'deleteCleansKinds': del_cleans, 'contextsShareSymbols': ctx_share}
+            'deleteCleansKinds': del_cleans, 'contextsShareSymbols': ctx_share,
+            'mutableDefaults': mut_defaults, 'argAliasMutations': arg_alias}
 
     kindmap = {'lru': '.lru', 'cprop': '.cprop', 'hasattr': '.hasattr'}
     L = []
@@ -1196,6 +1266,12 @@ def generate(repo):
     L.append('/-- `add` restores the symbol context (`state.restore_context()`) also when `_add` raises -/')
     L.append('def addRestoresContextOnError : Bool := %s' % ('true' if restores_on_err else 'false'))
     L.append('')
+    L.append('/-- functions of the package with a mutable default argument (one object shared by every call of the process) -/')
+    L.append('def mutableDefaults : List String := ' + llist([lstr(x) for x in mut_defaults]))
+    L.append('')
+    L.append('/-- functions that mutate an object owned by one of their ARGUMENTS through an un-copied alias -/')
+    L.append('def argAliasMutations : List String := ' + llist([lstr(x) for x in arg_alias]))
+    L.append('')
     L.append('/-- after `symbol_delete(n)` the name is unknown again to `SymbolRegistry.register(kind=\'expr\')` -/')
     L.append('def deleteCleansKinds : Bool := %s' % ('true' if del_cleans else 'false'))
     L.append('')
@@ -1223,6 +1299,16 @@ def generate(repo):
     L.append('/-- ... and call a mutating method on it / assign into it: (class, method, object, memo slot, call) -/')
     L.append('def sharedMutations : List (String × String × String × String × String) := ' +
              llist(['(%s, %s, %s, %s, %s)' % tuple(lstr(x) for x in m) for m in mutations]))
+    L.append('')
+    readers = []
+    for (a, b, c) in settings:
+        if a.startswith('state.'):
+            for m in c:
+                if m not in readers:
+                    readers.append(m)
+    info['stateSettingReaders'] = readers
+    L.append('/-- the modules that read a `state.<setting>` -/')
+    L.append('def stateSettingReaders : List String := ' + llist([lstr(r) for r in readers]))
     L.append('')
     L.append('/-- process-wide settings (state.py `State.__init__`, config.py) that some module reads: (name, default, readers) -/')
     L.append('def settings : List (String × String × List String) := [')
